@@ -1,9 +1,40 @@
 """C01 - newest point wins (Store.tla, last-write-wins alphabet)."""
+import vlib
+from props.common import role1, generate, harness
 from props.storestream import run_stream
+
+
+def pointops_phase(ctx):
+    """data.Points.Add / Merge / Collapse (PointOps.tla): the laws over every case of the tier's alphabet, the as-coded
+    Merge must violate the tombstone promise of its comment, and every case is run through the real functions.
+    Collapse is what the store's write path applies to each incoming batch: a disagreement there fails C01; Add and
+    Merge are beyond the listed properties and their disagreements are only reported."""
+    t = ctx.tier
+    states, trans, detail = role1(ctx, [("MC_PointOps", "MC_PointOps_%s.cfg" % t, {"timeout": 3000})])
+    r = vlib.run_tlc(ctx.sc, "MC_PointOps", "MC_PointOps_tomb.cfg", allow_violation=True, timeout=900)
+    if not r.violation or "LawMergeTomb" not in r.violation:
+        raise vlib.MachineryError("MC_PointOps_tomb.cfg: the as-coded Merge no longer violates LawMergeTomb")
+    detail.append({"cfg": "MC_PointOps_tomb.cfg", "must_violate": "LawMergeTomb", "violated": True})
+    cases, n = generate(ctx, "MC_PointOps", "Gen_PointOps_%s.cfg" % t, name="pointops.jsonl", workers=1, timeout=3000)
+    res = harness(ctx, vlib.build_vh(), ["pointops", "--cases", cases], timeout=3000)
+    return states, trans, detail, res
 
 
 def run(ctx):
     cov, failures = run_stream(ctx, "C01")
+    pstates, ptrans, pdetail, pres = pointops_phase(ctx)
+    cov["states"] += pstates
+    cov["transitions"] += ptrans
+    cov["role1"] = cov["role1"] + pdetail
+    cov["evaluations"] += pres["evaluations"]
+    cov["extra"]["pointops"] = pres.get("extra")
+    for f in pres["failures"]:
+        if f["finding"] == "C01:collapse":
+            f = dict(f)
+            f["finding"] = "collapse"
+            failures.append(f)
+        else:
+            vlib.log("NOTE (beyond the listed properties): %s - %s" % (f["finding"], f["what"]))
     cov["rule"] = ("TLC checks NewestWins / OneRowPerIdentity over every sequence of deliveries (batches of 1..2 points "
                    "from a universe of 3 identities x MaxTs timestamps chosen around the Type+Key collision and the two "
                    "spellings of key '0', on a node and on an edge) and that the as-coded collapse violates it. "
@@ -11,7 +42,11 @@ def run(ctx):
                    "p.<id> / p.<id>.<parent> on a real instance (all fields compared, value by bits, one point per "
                    "identity); each is followed by re-ordered, re-batched and duplicated deliveries of the same points, "
                    "whose final read must be the same. evaluations = acknowledged requests; distinct_nontrivial = "
-                   "distinct (request, predicted reply) pairs of the original sequences.")
+                   "distinct (request, predicted reply) pairs of the original sequences. "
+                   "Point-set operations (PointOps.tla): the laws of data.Points.Add (order independence, no duplicates), "
+                   "Collapse (one newest point per identity, '' = '0') and Merge (returns a subsequence of what came in) over "
+                   "every case of a small alphabet; every case is run through the real functions - Collapse disagreements "
+                   "fail C01 (the store collapses each batch with it), Add/Merge disagreements are reported only.")
     return {"coverage": cov, "failures": failures,
             "assumptions": ["distinct non-zero timestamps per identity; strings from pools",
                             "values are extreme float64 values from a pool (no NaN: C05)"]}
